@@ -6,7 +6,7 @@ from ..env import np, puan, pnd
 ID = "C19"
 RULE = ("Mode M: EVERY matrix [b|A] with 1..2 rows x 1..2 columns over {-1,0,1,2} (quick: 2x2 over {-1,0,1}; thorough adds 3x2 / 2x3 over {-1,0,1}) x EVERY points array of "
         "(the polyhedron OBJECT is reused from matrix to matrix by in-place assignment, plus a fresh object every 4th matrix) "
-        "ndim 1 (one point), ndim 2 (1..3 points), ndim 3 (1..2 groups x 1..2 points) over {-1,0,1} (plus every group / point containing -1 next to its hash-colliding twin with -2 instead), handed over as C-ordered, Fortran-ordered and non-contiguous arrays in rotation, (over {0,1} where the product would exceed 100 arrays). plus a family of large-magnitude rows / points (16-bit values times big coefficients, constants beyond 2^24 and 2^31, slack -1/0/+1). oracle: direct A p >= b per point (int64); "
+        "ndim 1 (one point), ndim 2 (1..3 points), ndim 3 (1..2 groups x 1..2 points) over {-1,0,1} (plus every group / point containing -1 next to its hash-colliding twin with -2 instead), handed over as C-ordered, Fortran-ordered and non-contiguous arrays in rotation, as int64 / int32 / int8 / int16 / bool / uint8 arrays in rotation, (over {0,1} where the product would exceed 100 arrays). plus a family of large-magnitude rows / points (16-bit values times big coefficients, constants beyond 2^24 and 2^31, slack -1/0/+1). oracle: direct A p >= b per point (int64); "
         "ineqs_satisfied = all rows per point, separable = its negation, ineq_separate_points = per row 'some point of the group violates'; "
         "output shapes (), (n,), (g,n) resp. (r,), (r,), (g,r). non-trivial = distinct (matrix, points) with mixed verdicts")
 ASSUMPTIONS = ["points are integer arrays of the polyhedron's column count"]
@@ -196,14 +196,21 @@ def check_matrix(M, c, pv, acc, case, only=None, P=None):
             # memory layout is not part of the value: C-ordered copies, Fortran-ordered copies and non-contiguous views in rotation
             lay = pi % 3 if pts.ndim >= 2 else 0
 
+            # nor is the integer type the points come in: int64 / int32 / int8, and bool (0/1-valued points, what from_list builds)
+            # or uint8 (non-negative points), in rotation over (matrix, points array)
+            rot = (case.get("mi", 0) + pi) % 5
+            zero_one = bool(((pts == 0) | (pts == 1)).all())
+            dt = (np.int64, np.int32, np.int8, np.bool_ if zero_one else np.int16, np.uint8 if (pts >= 0).all() else np.int64)[rot]
+            src = pts.astype(dt)
+
             def arg():
                 if lay == 1:
-                    return np.asfortranarray(pts)
+                    return np.asfortranarray(src)
                 if lay == 2:
-                    big = np.zeros(pts.shape[:-1] + (2 * pts.shape[-1],), dtype=pts.dtype)
-                    big[..., ::2] = pts
+                    big = np.zeros(src.shape[:-1] + (2 * src.shape[-1],), dtype=src.dtype)
+                    big[..., ::2] = src
                     return big[..., ::2]
-                return pts.copy()
+                return src.copy()
             sat = P.ineqs_satisfied(arg())
             sep = P.separable(arg())
             isp = P.ineq_separate_points(arg())
